@@ -6,7 +6,7 @@ import DimodModel.SamplesObject
 
 namespace SSM
 
-theorem relabel_wf (s s' : SS) (hwf : s.WF) (m : List (Label × Label)) (h : s.relabel m = some s') : s'.WF := by
+theorem ssobj_relabel_wf (s s' : SS) (hwf : s.WF) (m : List (Label × Label)) (h : s.relabel m = some s') : s'.WF := by
   unfold SS.relabel at h
   split at h
   · rename_i hok
@@ -19,14 +19,14 @@ theorem relabel_wf (s s' : SS) (hwf : s.WF) (m : List (Label × Label)) (h : s.r
       exact hwf.2 r hr
   · cases h
 
-theorem shiftEnergy_wf (s : SS) (hwf : s.WF) (off : Rat) : (s.shiftEnergy off).WF := by
+theorem ssobj_shiftEnergy_wf (s : SS) (hwf : s.WF) (off : Rat) : (s.shiftEnergy off).WF := by
   refine ⟨hwf.1, ?_⟩
   intro r hr
   simp only [SS.shiftEnergy, List.mem_map] at hr
   obtain ⟨r0, hr0, rfl⟩ := hr
   exact hwf.2 r0 hr0
 
-theorem mapSamples_wf (s : SS) (hwf : s.WF) (f : Rat → Rat) : (s.mapSamples f).WF := by
+theorem ssobj_mapSamples_wf (s : SS) (hwf : s.WF) (f : Rat → Rat) : (s.mapSamples f).WF := by
   refine ⟨hwf.1, ?_⟩
   intro r hr
   simp only [SS.mapSamples, List.mem_map] at hr
@@ -34,28 +34,28 @@ theorem mapSamples_wf (s : SS) (hwf : s.WF) (f : Rat → Rat) : (s.mapSamples f)
   show (r0.sample.map f).length = s.labels.length
   rw [List.length_map]; exact hwf.2 r0 hr0
 
-theorem changeVartype_wf (s : SS) (hwf : s.WF) (vt : VT) (off : Rat) : (s.changeVartype vt off).1.WF := by
+theorem ssobj_changeVartype_wf (s : SS) (hwf : s.WF) (vt : VT) (off : Rat) : (s.changeVartype vt off).1.WF := by
   have hsh : (if off ≠ 0 then s.shiftEnergy off else s).WF := by
     split
-    · exact shiftEnergy_wf s hwf off
+    · exact ssobj_shiftEnergy_wf s hwf off
     · exact hwf
   unfold SS.changeVartype
   split
   · exact hsh
   · split
-    · exact mapSamples_wf _ hsh _
+    · exact ssobj_mapSamples_wf _ hsh _
     · split
-      · exact mapSamples_wf _ hsh _
+      · exact ssobj_mapSamples_wf _ hsh _
       · exact hsh
 
-theorem next_wf (o : ObjOp) (s : SS) (hwf : s.WF) : (o.next s).WF := by
+theorem ssobj_next_wf (o : ObjOp) (s : SS) (hwf : s.WF) : (o.next s).WF := by
   cases o with
   | relabelIp m =>
     show ((s.relabel m).getD s).WF
     cases h : s.relabel m with
     | none => exact hwf
-    | some s' => exact relabel_wf s s' hwf m h
-  | changeVtIp vt off => exact changeVartype_wf s hwf vt off
+    | some s' => exact ssobj_relabel_wf s s' hwf m h
+  | changeVtIp vt off => exact ssobj_changeVartype_wf s hwf vt off
   | keep _ _ => exact hwf
   | drop _ => exact hwf
   | getMulti _ _ => exact hwf
@@ -63,7 +63,7 @@ theorem next_wf (o : ObjOp) (s : SS) (hwf : s.WF) : (o.next s).WF := by
 theorem runObj_wf (ops : List ObjOp) (s : SS) (hwf : s.WF) : (runObj ops s).WF := by
   induction ops generalizing s with
   | nil => exact hwf
-  | cons o ops ih => exact ih (o.next s) (next_wf o s hwf)
+  | cons o ops ih => exact ih (o.next s) (ssobj_next_wf o s hwf)
 
 /-- lookups are invisible: the object after any history is the object after its in-place calls alone -/
 theorem runObj_filter (ops : List ObjOp) (s : SS) : runObj ops s = runObj (ops.filter (·.mutates)) s := by
@@ -78,7 +78,7 @@ theorem runObj_filter (ops : List ObjOp) (s : SS) : runObj ops s = runObj (ops.f
     | getMulti a b => simp only [List.filter_cons, ObjOp.mutates]; exact ih _
 
 /-- gathering the positions of labels that are present yields exactly the cells under these labels -/
-theorem gather_cells (labels : List Label) (sample : List Rat) (cols : List Label)
+theorem ssobj_gather_cells (labels : List Label) (sample : List Rat) (cols : List Label)
     (hlen : sample.length = labels.length) (hin : ∀ v ∈ cols, v ∈ labels) :
     (gather sample (cols.map (labels.idxOf ·))).map some = cols.map (cell labels sample) := by
   induction cols with
@@ -105,7 +105,7 @@ theorem getMulti_spec (s : SS) (hwf : s.WF) (rowIdx : List Nat) (cols : List Lab
       unfold gather at hr
       obtain ⟨i, _, hi⟩ := List.mem_filterMap.mp hr
       exact List.mem_of_getElem? hi
-    exact gather_cells s.labels r.sample cols (hwf.2 r hr') hall
+    exact ssobj_gather_cells s.labels r.sample cols (hwf.2 r hr') hall
   · cases h
 
 theorem getMulti_none_iff (s : SS) (rowIdx : List Nat) (cols : List Label) :
